@@ -1027,6 +1027,8 @@ class Engine(object):
             finally:
                 self.call_depth -= 1
         if isinstance(fn, ClassVal):
+            if fn.name in self.opaque:
+                return self.opaque[fn.name](self, args, kwargs)
             obj = Obj(fn)
             init = fn.lookup('__init__')
             if init is not None:
